@@ -208,6 +208,25 @@ func (c *Ctx) tokenDispatch(h *ssa.Function) map[int64]OpArm {
 			}
 		}
 		arm.Present = len(specific) > 0
+		// the handler is the call whose results the arm returns; a call that only computes an argument of it (the
+		// truthiness of the left operand handed to a shared selection helper) comes first in the block but is not it
+		returned := func(call *ssa.Call) bool {
+			for _, ref := range *call.Referrers() {
+				switch x := ref.(type) {
+				case *ssa.Return:
+					return true
+				case *ssa.Extract:
+					for _, r2 := range *x.Referrers() {
+						if _, isR := r2.(*ssa.Return); isR {
+							return true
+						}
+					}
+				}
+			}
+			return false
+		}
+		var firstCal *ssa.Function
+		var firstCall *ssa.Call
 		for _, b := range specific {
 			if arm.Handler != nil {
 				break
@@ -227,11 +246,20 @@ func (c *Ctx) tokenDispatch(h *ssa.Function) map[int64]OpArm {
 				if cal == nil || !c.inModule(cal) || (disp != nil && cal == disp.Fn) {
 					continue
 				}
+				if firstCal == nil {
+					firstCal, firstCall = cal, call
+				}
+				if !returned(call) {
+					continue
+				}
 				arm.Handler = cal
 				arm.Call = call
 				arm.Pos = c.P.InstrPos(call)
 				break
 			}
+		}
+		if arm.Handler == nil && firstCal != nil {
+			arm.Handler, arm.Call, arm.Pos = firstCal, firstCall, c.P.InstrPos(firstCall)
 		}
 		if !arm.Present {
 			// describe where the control flow ends up
@@ -316,7 +344,7 @@ func (c *Ctx) producibleTokens() map[int64]bool {
 				return
 			}
 			fa, ok := st.Addr.(*ssa.FieldAddr)
-			if !ok || typeName(fa.X.Type()) != "Scanner" || fieldName(fa) != "token" {
+			if !ok || !isScannerField(fa, "token") {
 				return
 			}
 			// a token taken from a constant table (map literal indexed by the character)
